@@ -197,6 +197,10 @@ def hazard_alphabet():
     # ranges nested inside other ranges of the same operation (broadcast operand inside the IFM buffer; four tiles over one
     # contiguous buffer) and transfers that touch only the tail of such a buffer
     A.append(("addX_bcastinX>Y", ew_spec("ADD", X, X + 16, Y, bshape=(1, 1, 8))))
+    # both operands are windows of ONE buffer (upper and lower half of X, as after a SPLIT along the height): the dependency on the producer of X
+    # runs through the operand that holds the rows written last - IFM2 in the first, IFM in the second
+    A.append(("addXtopXbot>Y", ew_spec("ADD", X, X + 1024, Y, hw=(8, 16))))
+    A.append(("addXbotXtop>Y", ew_spec("ADD", X + 1024, X, Y, hw=(8, 16))))
     A.append(("dmaY>Xtail", dma_spec(1, Y, 1, X + 1024, 1024)))
     A.append(("dmaXtail>Z", dma_spec(1, X + 1024, 1, Z, 1024)))
     A.append(("dmaF>Xtail", dma_spec(0, 0x2000, 1, X + 1024, 1024)))
